@@ -81,6 +81,15 @@ func (fw *FileWriter) openOrCreate() error {
 // If swampName is set, creates a V3 file with the name stored after the header.
 // Otherwise creates a V3 file with NameLength=0.
 func (fw *FileWriter) createNewFile() error {
+	// The header stores the name length in 16 bits. A longer name would be
+	// written in full behind a wrapped length: every reader would get a cut-off
+	// name and take the rest of it for block data. Refuse it before anything
+	// touches the disk.
+	nameBytes := []byte(fw.swampName)
+	if len(nameBytes) > MaxNameLength {
+		return ErrNameTooLong
+	}
+
 	file, err := os.Create(fw.filePath)
 	if err != nil {
 		return err
@@ -90,7 +99,6 @@ func (fw *FileWriter) createNewFile() error {
 	fw.header = NewFileHeader()
 
 	// V3: store swamp name length in header
-	nameBytes := []byte(fw.swampName)
 	fw.header.NameLength = uint16(len(nameBytes))
 
 	// Write header
